@@ -341,6 +341,78 @@ theorem handshake_cut_incomplete (i : List β) (h : i.length < 4 ∨ (4 ≤ i.le
     · rw [e2]; exact ⟨_, rfl⟩
   · rw [e1]; exact ⟨_, rfl⟩
 
+/-! ### end to end for handshake payloads on plain bytes: any k-way split whose first message is completed only by the
+     last record -/
+
+/-- "the first handshake message of `x` is cut short": fewer than 4 bytes, or fewer than 4 + declared length -/
+def firstMessageCut (x : List UInt8) : Prop :=
+  x.length < 4 ∨ (4 ≤ x.length ∧ x.length < 4 + beVal ((x.drop 1).take 3))
+
+theorem cut_fragLike (hdr : RecordHeader) (hh : hdr.recordType = 0x16) (x : List UInt8) (hc : firstMessageCut x) :
+    fragLike (parseRecordWithHeader hdr x) = true := by
+  rw [handshake_prefix_fragLike hdr hh x (handshake_cut_incomplete x hc)]
+  rfl
+
+/-- the hypotheses of the continuation phase follow from: every fragment is a handshake record, the running total stays
+    below the cap, every proper prefix-concatenation cuts the first message, and the one-shot parser accepts the whole -/
+theorem contHyp_of_cuts (acc : List UInt8) (rs : List (RawRecord UInt8)) (last : RawRecord UInt8) (rem : List UInt8)
+    (v : List (Message UInt8))
+    (ht : ∀ r ∈ rs ++ [last], r.hdr.recordType = 0x16)
+    (hcap : acc.length + ((rs ++ [last]).map (·.data.length)).sum < maxRecordData)
+    (hcut : ∀ k, k < rs.length → firstMessageCut (acc ++ ((rs.take (k + 1)).map (·.data)).flatten))
+    (hfinal : parseRecordWithHeader (pseudoHdr last.hdr (acc ++ ((rs ++ [last]).map (·.data)).flatten))
+                (acc ++ ((rs ++ [last]).map (·.data)).flatten) = .ok rem v) :
+    ContHyp parseRecordWithHeader 0x16 acc rs last (.ok rem v) := by
+  induction rs generalizing acc with
+  | nil =>
+    simp only [ContHyp, copyInto_uint8]
+    refine ⟨ht last (by simp), by simpa using hcap, ?_⟩
+    simpa using hfinal
+  | cons r rs ih =>
+    simp only [ContHyp, copyInto_uint8]
+    have htr : r.hdr.recordType = 0x16 := ht r (by simp)
+    refine ⟨htr, ?_, ?_, ?_⟩
+    · simp only [List.cons_append, List.map_cons, List.sum_cons] at hcap; omega
+    · have := hcut 0 (by simp)
+      simp only [List.take_succ_cons, List.take_zero, List.map_cons, List.map_nil, List.flatten_cons, List.flatten_nil, List.append_nil] at this
+      exact cut_fragLike _ (by simp [pseudoHdr, htr]) _ this
+    · apply ih
+      · intro x hx; exact ht x (by rw [List.cons_append]; exact List.mem_cons_of_mem _ hx)
+      · simp only [List.cons_append, List.map_cons, List.sum_cons, List.length_append] at hcap ⊢
+        omega
+      · intro k hk
+        have := hcut (k + 1) (by simp; omega)
+        simpa [List.take_succ_cons, List.append_assoc] using this
+      · simpa [List.append_assoc] using hfinal
+
+/-- **C07 for handshake payloads, end to end** (plain bytes): a payload split into `1 + rs.length + 1` handshake
+    records, cut anywhere (also inside the 4-byte handshake header, also with empty fragments), such that every
+    proper prefix still cuts the first message: every call but the last answers Incomplete with defragmentation in
+    progress; the last returns exactly what the one-shot parser returns on the unsplit payload (with the pseudo
+    header) and ends defragmentation. -/
+theorem handshake_split_refines (s : RPState UInt8) (hs : s.cur = none)
+    (first : RawRecord UInt8) (rs : List (RawRecord UInt8)) (last : RawRecord UInt8) (rem : List UInt8) (v : List (Message UInt8))
+    (ht : ∀ r ∈ first :: (rs ++ [last]), r.hdr.recordType = 0x16)
+    (hcap : ((first :: (rs ++ [last])).map (·.data.length)).sum < maxRecordData)
+    (hcut1 : firstMessageCut first.data)
+    (hcut : ∀ k, k < rs.length → firstMessageCut (first.data ++ ((rs.take (k + 1)).map (·.data)).flatten))
+    (hfinal : parseRecordWithHeader (pseudoHdr last.hdr (first.data ++ ((rs ++ [last]).map (·.data)).flatten))
+                (first.data ++ ((rs ++ [last]).map (·.data)).flatten) = .ok rem v) :
+    ∃ outs, (rpRun parseRecordWithHeader s (.parse first :: (rs.map .parse ++ [.parse last]))).2
+        = some (.incomplete .unknown) :: (outs ++ [some (.ok rem v)]) ∧
+      outs.length = rs.length ∧ (∀ o ∈ outs, ∃ r, o = some r ∧ r.isIncomplete = true) ∧
+      (rpRun parseRecordWithHeader s (.parse first :: (rs.map .parse ++ [.parse last]))).1.inProgress = false := by
+  have ht1 : first.hdr.recordType = 0x16 := ht first (by simp)
+  apply accumulate_then_parse parseRecordWithHeader s hs first rs last rem v
+  · simp [noDefrag, ht1]
+  · exact cut_fragLike _ ht1 _ hcut1
+  · rw [ht1, copyInto_uint8]
+    apply contHyp_of_cuts
+    · intro r hr; exact ht r (List.mem_cons_of_mem _ hr)
+    · simp only [List.map_cons, List.sum_cons] at hcap; exact hcap
+    · exact hcut
+    · exact hfinal
+
 /-! ### non-vacuity: a ServerHelloDone message split inside its 4-byte header (2 + 2 bytes) -/
 example : (rpRun (β := Fin 256) parseRecordWithHeader RPState.init
     [.parse ⟨⟨22, 771, 2⟩, [14, 0]⟩, .parse ⟨⟨22, 771, 2⟩, [0, 0]⟩]).2
